@@ -808,13 +808,13 @@ def d8_conditions(chk, repo):
                f"vdim_mapping={v.show(a.get('vdim_mapping'))}; expected self's mapping updated with other's (or None)", v.f, r)
         # labels / mapping are kept exactly when they can be: gated reaching definitions of the two constructor arguments
         # (independent of `x = None; if ok: x = v` versus `if bad: x = None else: x = v`)
-        from ..lib import gated_expr, value_iff
-        call = r.value if isinstance(r.value, ast.Call) else None
+        from ..lib import gated_expr, value_iff, returned_call
+        call, r_at = returned_call(v, r)
         kws = {k.arg: k.value for k in call.keywords} if call is not None else {}
         both = v.spec("self.vdims is not None and o.vdims is not None", env={"o": other})
         distinct = v.spec("len(c) == len(set(c))", env={"c": cat})
-        g = gated_expr(v, kws["vdims"], r, via=[first]) if "vdims" in kws else None
-        reach_r = full_term(v, r)
+        g = gated_expr(v, kws["vdims"], r_at, via=[first]) if "vdims" in kws else None
+        reach_r = full_term(v, r_at)
         okl = g is not None and value_iff(v, g, lambda t_: v.eq(t_, cat), v.ev._bool("and", [both, distinct]), assume=reach_r) and \
             all(v.eq(t_, cat) or is_const(v.ctx, t_, None) for c_, t_, s_ in g)
         chk.ob("field.Field.__lshift__::labels-kept-iff-both-labelled-and-distinct", okl, "C03.D8",
@@ -822,7 +822,7 @@ def d8_conditions(chk, repo):
                f"otherwise); alternatives: {[(v.show(c_)[:90], v.show(t_)[:40]) for c_, t_, s_ in (g or [])][:4]}", v.f, r)
         if merged is not None and a.get("nvdim") is not None:
             complete = v.spec("len(m) == n", env={"m": merged, "n": a["nvdim"]})
-            g = gated_expr(v, kws["vdim_mapping"], r, via=[first]) if "vdim_mapping" in kws else None
+            g = gated_expr(v, kws["vdim_mapping"], r_at, via=[first]) if "vdim_mapping" in kws else None
             okm = g is not None and value_iff(v, g, lambda t_: t_ is merged or v.eq(t_, merged), complete, assume=reach_r) and \
                 all(v.eq(t_, merged) or is_const(v.ctx, t_, None) for c_, t_, s_ in g)
             chk.ob("field.Field.__lshift__::mapping-kept-iff-complete", okm, "C03.D8",
@@ -918,8 +918,8 @@ def d8_ufunc(chk, repo):
     meshes = None
     for st, nm, t in simple_assigns(v):
         h = v.ctx.head_of(t)
-        if h and h[0] == "seqcomp" and any(hd == ("attr", "mesh") or hd == ("prop", "mesh") for hd in v.ctx.heads_in(t)):
-            meshes = t
+        if h and h[0] == "seqcomp" and v.ctx.head_of(v.ctx.args_of(t)[0]) in (("attr", "mesh"), ("prop", "mesh")):
+            meshes = t          # the list of the inputs' meshes: a comprehension whose element IS a `.mesh`
     if meshes is not None:
         want = v.spec("len(r) != len(m)", env={"r": res, "m": meshes})
         lens = [(st, c) for st, c in conds if v.ctx.mentions(c, res) and any(hd[0] == "call" and hd[1] == "len" for hd in v.ctx.heads_in(c))
